@@ -473,6 +473,12 @@ func genModelWorld(r *Rng, prop string) *World {
 	c.Opts = r.P(0.3)
 	c.PTags = 0 // struct tags are C10's and C14's subject (open finding F-TAGS); keys are schema keys here
 	root := GenNode(r, &c, 0, true)
+	if r.P(0.08) {
+		// long paths: a cold path builder has room for five segments
+		w.Family = "deep-chain"
+		c.MaxElems = 2
+		root = DeepChain(r, &c, 5+r.Intn(3))
+	}
 	w.Schemas = []*Node{root}
 	no := 1 + r.Intn(4)
 	var ops []Op
